@@ -20,8 +20,9 @@ TypeRec(T) == [id |-> T, name |-> Types[T].name,
                               elem |-> Types[T].fields[i].elem, tags |-> TagTexts(Types[T].fields[i])]]]
 EmitMenu ==
   /\ \A i \in 1..Len(TypeIds) : PrintT("@@TYPE " \o ToJson(TypeRec(TypeIds[i])))
-  /\ PrintT("@@MARK " \o ToJson([markers |-> Markers, globals |-> SetToSeq(GlobalFns), tags |-> TagNames, menu |-> MenuN]))
-  /\ \A i \in 1..NDesc : PrintT("@@DESC " \o ToJson([id |-> i, d |-> Universe[i], exp |-> ExpTable[i]]))
+  /\ PrintT("@@MARK " \o ToJson([markers |-> Markers, globals |-> SetToSeq(GlobalFns), late |-> LateFn, tags |-> TagNames, menu |-> MenuN]))
+  /\ \A i \in 1..NDesc : PrintT("@@DESC " \o ToJson([id |-> i, d |-> Universe[i], exp |-> ExpTable[i], free |-> IsFree(i),
+                                                     exp1 |-> ExpTableAt[1][i], exp2 |-> ExpTableAt[2][i]]))
 
 Cube(x) == x * x * x
 Selected == {ss \in SUBSET (1..MenuN) : Cardinality(ss) = 4 /\ (FoldSet(LAMBDA x, acc : acc + Cube(x), 0, ss) + SelSeed) % SelMod = 0}
